@@ -115,6 +115,7 @@ type scope struct {
 	info  *types.Info
 	env   map[types.Object]string
 	local bool // identifiers of the analysed function may occur (aliases / ok-vars resolve)
+	bdef  map[types.Object]*Formula // boolean locals of an inlined predicate (defined once, before use)
 }
 
 type FactEngine struct {
@@ -128,6 +129,7 @@ type FactEngine struct {
 	boolDefs  map[types.Object]ast.Expr
 	depth     int
 	undecided string
+	postCache map[*ast.CallExpr]*Formula
 }
 
 func NewFactEngine(p *Prog, fn *FuncInfo) *FactEngine {
@@ -719,6 +721,9 @@ func (e *FactEngine) boolForm(x ast.Expr, sc *scope) *Formula {
 		}
 	case *ast.Ident:
 		o := sc.info.ObjectOf(t)
+		if f, ok := sc.bdef[o]; ok && o != nil {
+			return f
+		}
 		if o != nil && sc.local {
 			if _, ok := e.okvars[o]; ok {
 				var paths []string
@@ -833,6 +838,47 @@ func (e *FactEngine) predBody(stmts []ast.Stmt, sc *scope) (*Formula, bool) {
 			return nil, false
 		}
 		return e.boolForm(s.Results[0], sc), true
+	case *ast.AssignStmt:
+		// x := <bool expression> — a named sub-condition, defined once
+		if s.Tok != token.DEFINE || len(s.Lhs) != 1 || len(s.Rhs) != 1 {
+			return nil, false
+		}
+		id, ok := s.Lhs[0].(*ast.Ident)
+		o := sc.info.Defs[id]
+		if !ok || o == nil {
+			return nil, false
+		}
+		if b, ok := o.Type().Underlying().(*types.Basic); !ok || b.Kind() != types.Bool {
+			return nil, false
+		}
+		reassigned := false
+		for _, st := range stmts[1:] {
+			ast.Inspect(st, func(n ast.Node) bool {
+				switch t := n.(type) {
+				case *ast.AssignStmt:
+					for _, l := range t.Lhs {
+						if li, ok := l.(*ast.Ident); ok && sc.info.Uses[li] == o {
+							reassigned = true
+						}
+					}
+				case *ast.UnaryExpr:
+					if li, ok := t.X.(*ast.Ident); ok && t.Op == token.AND && sc.info.Uses[li] == o {
+						reassigned = true
+					}
+				}
+				return true
+			})
+		}
+		if reassigned {
+			return nil, false
+		}
+		sc2 := *sc
+		sc2.bdef = map[types.Object]*Formula{}
+		for k, v := range sc.bdef {
+			sc2.bdef[k] = v
+		}
+		sc2.bdef[o] = e.boolForm(s.Rhs[0], sc)
+		return e.predBody(stmts[1:], &sc2)
 	case *ast.IfStmt:
 		if s.Init != nil {
 			return nil, false
@@ -1027,6 +1073,14 @@ func (e *FactEngine) newUniverse(req *Formula, body *ast.BlockStmt, target ...as
 			case *ast.ForStmt:
 				if t.Cond != nil {
 					conds = append(conds, e.boolForm(t.Cond, sc))
+				}
+			case *ast.AssignStmt:
+				if len(t.Lhs) == 1 && len(t.Rhs) == 1 {
+					if call, ok := ast.Unparen(t.Rhs[0]).(*ast.CallExpr); ok {
+						if post := e.callPost(t.Lhs[0], call, sc); post != nil {
+							conds = append(conds, post)
+						}
+					}
 				}
 			case *ast.SwitchStmt:
 				for _, cl := range t.Body.List {
@@ -1995,6 +2049,12 @@ func (w *walker) assign(lhs ast.Expr, rhs ast.Expr, s vset) vset {
 			} else if nonNilProducer(w.sc.info, rhs) {
 				s = w.u.assume(s, i, false)
 			}
+		}
+	}
+	if call, ok := ast.Unparen(rhs).(*ast.CallExpr); ok {
+		if post := w.e.callPost(lhs, call, w.sc); post != nil {
+			tt, _ := w.u.may(post)
+			s = s.and(tt)
 		}
 	}
 	return s
